@@ -95,6 +95,11 @@ func verifyFunction(p *Program, fn *ssa.Function, c *FuncContract, emit func(*Ob
 		}
 	}
 	fe.resNames = resultNames(fn, c)
+	// refinement of an interface method: its precondition plus the coupling invariant
+	// must imply the method's own precondition
+	if c.Impl != nil {
+		fe.refineRequires(st.snapshot())
+	}
 	// requires
 	pre := st.snapshot()
 	env := fe.env(st, pre)
@@ -134,6 +139,185 @@ func verifyFunction(p *Program, fn *ssa.Function, c *FuncContract, emit func(*Ob
 		}
 	}
 	return fe
+}
+
+// ---------------------------------------------------------------------------
+// refinement of interface contracts ("implements")
+
+func (fe *FnExec) implInfo() (ic *FuncContract, it types.Type, tags []string) {
+	im := fe.C.Impl
+	it, err := fe.P.resolveType(im.Iface, fe.C.Pkg)
+	if err != nil {
+		fe.fail("implements %s: %v", im.Iface, err)
+	}
+	if _, ok := it.Underlying().(*types.Interface); !ok {
+		fe.fail("implements %s: not an interface type", im.Iface)
+	}
+	ic = fe.P.Contracts["iface "+typeKey(it)+"."+fe.Fn.Name()]
+	if ic == nil {
+		fe.fail("implements %s: the interface has no contract for method %s", im.Iface, fe.Fn.Name())
+	}
+	if len(fe.Fn.Params) == 0 || !types.Implements(fe.Fn.Params[0].Type(), it.Underlying().(*types.Interface)) {
+		fe.fail("implements %s: receiver type does not implement it", im.Iface)
+	}
+	tags = im.Tags
+	if len(tags) == 0 {
+		tags = []string{"support"}
+	}
+	return
+}
+
+// implEnv: the interface contract's names bound to this method's receiver (boxed),
+// parameters (by position) and, when given, results.
+func (fe *FnExec) implEnv(st *State, old *State, ic *FuncContract, it types.Type, results []SVal) *Env {
+	env := fe.env(st, old)
+	vars := map[string]Binding{}
+	recv := fe.Fn.Params[0]
+	rv := st.vals[recv]
+	rn := ic.RecvName
+	if rn == "" {
+		rn = "recv"
+	}
+	vars[rn] = Binding{IfaceV{fe.typeCodeOf(recv.Type()), refOf(rv)}, it}
+	for i, prm := range fe.Fn.Params[1:] {
+		n := prm.Name()
+		if i < len(ic.ParamNames) && ic.ParamNames[i] != "_" {
+			n = ic.ParamNames[i]
+		}
+		vars[n] = Binding{st.vals[prm], prm.Type()}
+	}
+	for _, gp := range ic.GhostParams {
+		if b, ok := fe.implGhost[gp]; ok {
+			vars[gp] = b
+			continue
+		}
+		v, err := st.freshValue("gp."+gp, types.Typ[types.Int])
+		if err != nil {
+			fe.fail("implements: ghost parameter %s: %v", gp, err)
+		}
+		if fe.implGhost == nil {
+			fe.implGhost = map[string]Binding{}
+		}
+		fe.implGhost[gp] = Binding{v, types.Typ[types.Int]}
+		vars[gp] = fe.implGhost[gp]
+	}
+	res := fe.Fn.Signature.Results()
+	for i, v := range results {
+		if i < len(ic.ResNames) {
+			vars[ic.ResNames[i]] = Binding{v, res.At(i).Type()}
+		}
+		vars[fmt.Sprintf("result%d", i)] = Binding{v, res.At(i).Type()}
+		if len(results) == 1 {
+			vars["result"] = Binding{v, res.At(i).Type()}
+		}
+	}
+	env.vars = vars
+	return env
+}
+
+func (fe *FnExec) implInvTerm(st *State, old *State) Term {
+	names := paramNames(fe.Fn, fe.C)
+	e, err := parseExpr(names[0] + "." + fe.C.Impl.Inv + "()")
+	if err != nil {
+		fe.fail("implements inv %s: %v", fe.C.Impl.Inv, err)
+	}
+	t, err := fe.env(st, old).evalBool(e)
+	if err != nil {
+		fe.fail("implements inv %s: %v", fe.C.Impl.Inv, err)
+	}
+	return t
+}
+
+func (fe *FnExec) refineRequires(st *State) {
+	ic, it, tags := fe.implInfo()
+	ienv := fe.implEnv(st, st, ic, it, nil)
+	for i, cl := range ic.Requires {
+		t, err := ienv.evalBool(cl.E)
+		if err != nil {
+			fe.fail("implements: interface requires#%d (%s): %v", i+1, cl.Text, err)
+		}
+		st.assume(t, "interface requires: "+cl.Text)
+	}
+	st.assume(Neq(refOf(st.vals[fe.Fn.Params[0]]), IntLit(0)), "receiver of a dynamic call is not nil")
+	st.assume(fe.implInvTerm(st, st), "coupling invariant "+fe.C.Impl.Inv)
+	fe.cover(st, "refine-entry", "interface precondition and coupling invariant satisfiable")
+	own := fe.env(st, st)
+	for i, cl := range fe.C.Requires {
+		t, err := own.evalBool(cl.E)
+		if err != nil {
+			fe.fail("requires#%d (%s): %v", i+1, cl.Text, err)
+		}
+		fe.assert(st, t, fmt.Sprintf("refine/requires#%d", i+1), "requires", tags,
+			"interface precondition + "+fe.C.Impl.Inv+" ==> "+cl.Text, fe.Fn.Pos())
+	}
+	fe.refineEncapsulation(tags)
+}
+
+// refineEncapsulation: the receiver type's fields are stored to only by functions
+// under (non-trusted) contract - so the coupling invariant cannot be broken behind
+// the verifier's back.
+func (fe *FnExec) refineEncapsulation(tags []string) {
+	pt, ok := fe.Fn.Params[0].Type().Underlying().(*types.Pointer)
+	if !ok {
+		return
+	}
+	owner := typeKey(pt.Elem())
+	var bad []string
+	for name, f := range fe.P.Funcs {
+		if f.Pkg == nil || f.Pkg != fe.Fn.Pkg || f.Synthetic != "" {
+			continue
+		}
+		stores := false
+		for _, b := range f.Blocks {
+			for _, in := range b.Instrs {
+				if s, ok := in.(*ssa.Store); ok {
+					if fa, ok := s.Addr.(*ssa.FieldAddr); ok {
+						if p2, ok := fa.X.Type().Underlying().(*types.Pointer); ok && typeKey(p2.Elem()) == owner {
+							stores = true
+						}
+					}
+				}
+			}
+		}
+		if !stores {
+			continue
+		}
+		if cc := fe.P.Contracts[name]; cc == nil || cc.Mode == "trusted" {
+			bad = append(bad, shortFn(name))
+		}
+	}
+	sort.Strings(bad)
+	status, raw := "unsat", "every function storing to a field of "+owner+" is under contract"
+	if len(bad) > 0 {
+		status, raw = "sat", "fields of "+owner+" are stored to by functions without a verified contract: "+strings.Join(bad, ", ")
+	}
+	fe.nObl++
+	fe.emit(&Obligation{Func: shortFn(fe.Fn.String()), Name: fe.oblName("refine/encapsulation"), Kind: "frame", Tags: tags,
+		Text: raw, Pos: fe.pos(fe.Fn.Pos()), Result: SolverResult{Status: status, Solver: "syntactic", Raw: raw}})
+}
+
+// refineEnsures: at a return, the coupling invariant holds again and the interface
+// method's [proto] postconditions hold for this implementation.
+func (fe *FnExec) refineEnsures(st *State, results []SVal, pos token.Pos) {
+	ic, it, tags := fe.implInfo()
+	fe.assert(st, fe.implInvTerm(st, fe.entry), "refine/inv", "ensures", tags, "coupling invariant "+fe.C.Impl.Inv+" re-established", pos)
+	ienv := fe.implEnv(st, fe.entry, ic, it, results)
+	for i, cl := range ic.Ensures {
+		proto := false
+		for _, t := range cl.Tags {
+			if t == "proto" {
+				proto = true
+			}
+		}
+		if !proto {
+			continue
+		}
+		t, err := ienv.evalBool(cl.E)
+		if err != nil {
+			fe.fail("implements: interface ensures#%d (%s): %v", i+1, cl.Text, err)
+		}
+		fe.assert(st, t, fmt.Sprintf("refine/ensures#%d", i+1), "ensures", tags, "interface postcondition: "+cl.Text, pos)
+	}
 }
 
 // makeGhosts: `call make#k ghost owner = e` / `rowof = e` give the immutable ghost
@@ -399,9 +583,51 @@ func (fe *FnExec) numberSites() {
 				name := calleeShortName(x.Common())
 				calls[name]++
 				fe.callOrd[in] = calls[name]
+			default:
+				if name := pseudoCallName(in); name != "" {
+					calls[name]++
+					fe.callOrd[in] = calls[name]
+				}
 			}
 		}
 	}
+}
+
+// pseudoCallName: channel operations appear in the call trace as "send", "recv"
+// and "select" (permissive mode only).
+func pseudoCallName(in ssa.Instruction) string {
+	switch x := in.(type) {
+	case *ssa.Send:
+		return "send"
+	case *ssa.Select:
+		return "select"
+	case *ssa.UnOp:
+		if x.Op == token.ARROW {
+			return "recv"
+		}
+	}
+	return ""
+}
+
+// pseudoCall records a channel operation in the call trace, under its name and
+// under name#site so that loop invariants can count one static site.
+func (fe *FnExec) pseudoCall(st *State, in ssa.Instruction, name string, args []SVal, argT []types.Type, res SVal, resT types.Type) {
+	ord := fe.callOrd[in]
+	st.countCall(name)
+	st.countCall(fmt.Sprintf("%s#%d", name, ord))
+	st.callSeq++
+	rec := callRec{pre: st.snapshot(), seq: st.callSeq, args: args, argT: argT, res: res, resT: resT}
+	st.callLog[fmt.Sprintf("%s#%d", name, st.callCnt[name])] = rec
+	st.callLog[fmt.Sprintf("%s@%d", name, ord)] = rec
+	// call-site assertions of the contract: call send#k assert ...
+	vars := map[string]Binding{}
+	for i, a := range args {
+		vars[fmt.Sprintf("$%d", i)] = Binding{a, argT[i]}
+	}
+	if res != nil {
+		vars["$result"] = Binding{res, resT}
+	}
+	fe.callSiteAsserts(st, in, calleeInfo{short: name}, ord, fmt.Sprintf("%s#%d", name, ord), vars, nil)
 }
 
 func calleeShortName(c *ssa.CallCommon) string {
@@ -724,7 +950,27 @@ func (fe *FnExec) ghostAssign(st *State, old *State, ga GhostAssign, extra map[s
 		}
 		g := fe.P.ghostField(owner, tgt.Name)
 		if g == nil {
+			// ghost state of an interface type, assigned through an implementing pointer
+			for _, k := range fe.P.ifaceGhostKeys() {
+				if ig := fe.P.Ghosts[k]; ig.Name == tgt.Name {
+					if g != nil {
+						fe.fail("ghost assignment %s: %s is ambiguous between interface types", ga.Text, tgt.Name)
+					}
+					g = ig
+				}
+			}
+			if g != nil {
+				owner = g.Owner
+			}
+		}
+		if g == nil {
 			fe.fail("ghost assignment %s: %s.%s is not a ghost field", ga.Text, owner, tgt.Name)
+		}
+		if fe.Mode != "permissive" {
+			if cs, err := compsOf(g.Type); err == nil && len(cs) > 0 {
+				key := fieldKey(owner, g.Name) + cs[0].suffix
+				fe.assert(st, fe.allowedWrite(st, key, ref), "frame/ghost:"+strings.TrimSpace(ga.Text), "frame", []string{"support"}, "ghost write to "+key+" allowed by modifies", token.NoPos)
+			}
 		}
 		// name the value before storing so that it refers to the pre-assignment state
 		fl := flatten(val)
@@ -1003,6 +1249,20 @@ func (fe *FnExec) havocLoop(st *State, l *Loop) {
 					// store through a pointer value we cannot classify statically
 					if pt, ok := x.Addr.Type().Underlying().(*types.Pointer); ok && isStructByValue(pt.Elem()) {
 						fe.keysOfStruct(pt.Elem(), keys)
+					}
+				}
+			case *ssa.Send, *ssa.Select:
+				for _, name := range []string{pseudoCallName(in), fmt.Sprintf("%s#%d", pseudoCallName(in), fe.callOrd[in])} {
+					nc := st.freshConst("ncalls."+name, SInt)
+					st.assume(Ge(nc, st.numCalls(name)), "operations so far")
+					st.callNum[name] = nc
+				}
+			case *ssa.UnOp:
+				if x.Op == token.ARROW {
+					for _, name := range []string{"recv", fmt.Sprintf("recv#%d", fe.callOrd[in])} {
+						nc := st.freshConst("ncalls."+name, SInt)
+						st.assume(Ge(nc, st.numCalls(name)), "operations so far")
+						st.callNum[name] = nc
 					}
 				}
 			case ssa.CallInstruction:
@@ -1397,7 +1657,36 @@ func (fe *FnExec) step(st *State, in ssa.Instruction) {
 		st.callLog[fmt.Sprintf("mapupdate#%d", st.callCnt["mapupdate"])] = callRec{seq: st.callSeq, args: []SVal{m, k, v},
 			argT: []types.Type{x.Map.Type(), x.Key.Type(), x.Value.Type()}}
 		st.bumpMaps()
-	case *ssa.Range, *ssa.Next, *ssa.Select, *ssa.Send, *ssa.Go, *ssa.Index:
+	case *ssa.Send:
+		if fe.Mode != "permissive" {
+			fe.fail("%s: channel send is outside the strict subset", fe.pos(in.Pos()))
+		}
+		fe.pseudoCall(st, in, "send", []SVal{fe.get(st, x.Chan), fe.get(st, x.X)}, []types.Type{x.Chan.Type(), x.X.Type()}, nil, nil)
+	case *ssa.Select:
+		if fe.Mode != "permissive" {
+			fe.fail("%s: select is outside the strict subset", fe.pos(in.Pos()))
+		}
+		fv, err := st.freshValue("select", x.Type())
+		if err != nil {
+			fe.fail("%s: %v", fe.pos(in.Pos()), err)
+		}
+		if tv, ok := fv.(TupleV); ok && len(tv.E) > 0 {
+			idx := tv.E[0].(Scalar).T
+			lo := int64(0)
+			if !x.Blocking {
+				lo = -1
+			}
+			st.assume(And(Ge(idx, IntLit(lo)), Lt(idx, IntLit(int64(len(x.States))))), "select picks one of its cases")
+		}
+		st.vals[x] = fv
+		var args []SVal
+		var argT []types.Type
+		for _, sc := range x.States {
+			args = append(args, fe.get(st, sc.Chan))
+			argT = append(argT, sc.Chan.Type())
+		}
+		fe.pseudoCall(st, in, "select", args, argT, fv, x.Type())
+	case *ssa.Range, *ssa.Next, *ssa.Go, *ssa.Index:
 		if fe.Mode != "permissive" {
 			fe.fail("%s: instruction %T is outside the verified subset", fe.pos(in.Pos()), in)
 		}
@@ -1494,6 +1783,17 @@ func (fe *FnExec) store(st *State, in *ssa.Store, addr SVal, val SVal) {
 
 func (fe *FnExec) unop(st *State, x *ssa.UnOp) {
 	switch x.Op {
+	case token.ARROW: // channel receive: an arbitrary value of the element type
+		if fe.Mode != "permissive" {
+			fe.fail("%s: channel receive is outside the strict subset", fe.pos(x.Pos()))
+		}
+		fv, err := st.freshValue("recv", x.Type())
+		if err != nil {
+			fe.fail("%s: %v", fe.pos(x.Pos()), err)
+		}
+		st.vals[x] = fv
+		fe.pseudoCall(st, x, "recv", []SVal{fe.get(st, x.X)}, []types.Type{x.X.Type()}, fv, x.Type())
+		return
 	case token.MUL: // load
 		addr := fe.get(st, x.X)
 		switch a := addr.(type) {
